@@ -337,8 +337,11 @@ func (fc *FuncCtx) oblige(kind, label, guard, goal, desc string, tags []string) 
 		goal = o.Goal
 	}
 	fc.q.obls = append(fc.q.obls, o)
-	// assert-then-assume
-	fc.q.assume(fmt.Sprintf("(=> %s %s)", guard, goal))
+	// assert-then-assume (never for an unconditional `false`: that would make
+	// everything after an undischarged obligation vacuously provable)
+	if goal != "false" {
+		fc.q.assume(fmt.Sprintf("(=> %s %s)", guard, goal))
+	}
 	return o
 }
 
@@ -1277,8 +1280,8 @@ func (fc *FuncCtx) backEdge(li *loopInfo, p *ssa.BasicBlock, ec string, st *Stat
 		fc.eng.warn("%s %s: termination not claimed (decreases _)", fc.fnName, label)
 	default:
 		// rangeindex loops over a slice terminate by construction (bounded index); others need a measure
-		if fc.isRangeIndexLoop(li) || len(li.strIters) > 0 && fc.isStringRangeHead(li) {
-			return
+		if fc.isRangeIndexLoop(li) || fc.isRangeIterHead(li) {
+			return // range loops over slices, strings and maps terminate by construction
 		}
 		fc.oblige(label+"/variant", "missing"+suffix, ec, "false", "loop has no decreases clause: termination not shown", nil)
 	}
@@ -1300,10 +1303,10 @@ func rangeBound(b *ssa.BasicBlock, phi *ssa.Phi) ssa.Value {
 	return nil
 }
 
-// isStringRangeHead: the loop is `for ... := range someString` (its head block is the Next).
-func (fc *FuncCtx) isStringRangeHead(li *loopInfo) bool {
+// isRangeIterHead: the loop is `for ... := range <string or map>` (its head block is the Next).
+func (fc *FuncCtx) isRangeIterHead(li *loopInfo) bool {
 	for _, in := range li.head.Instrs {
-		if nx, ok := in.(*ssa.Next); ok && nx.IsString {
+		if _, ok := in.(*ssa.Next); ok {
 			return true
 		}
 	}
